@@ -21,7 +21,7 @@ RULE = (
 ASSUMPTIONS = [
     "trials report consecutive resource levels 1, 2, 3, ... as the tuning loop delivers them",
     "inside one Pareto layer any order is accepted (the property only fixes the order between layers)",
-    "NonDominatedPriority is used without max_num_samples inside MOASHA (its default)",
+    "with NonDominatedPriority(max_num_samples=k) the items the sort does not list share position k (the comment in priority_unsafe)",
 ]
 
 
@@ -191,7 +191,7 @@ class RefBracket:
         return None
 
 
-def allowed_decisions(prio_kind, prio_arg, V, rf):
+def allowed_decisions(prio_kind, prio_arg, V, rf, max_items=None):
     """V: list of vectors (own last), already in minimisation convention.
     Returns set of acceptable decisions."""
     n = len(V)
@@ -205,6 +205,9 @@ def allowed_decisions(prio_kind, prio_arg, V, rf):
         b = sum(1 for x in layer if x == layer[-1])
         out = set()
         for pos in range(a, a + b):
+            # with max_num_samples = k only the first k items of the sort are ranked, all others share the position k
+            if max_items is not None and pos >= max_items:
+                pos = max_items
             out.add("CONTINUE" if pos / n <= thr else "STOP")
         return out
     if prio_kind == "fixed":
@@ -251,6 +254,7 @@ def case_moasha(t):
     max_t = max(max_t, grace)
     brackets = t.weighted([(3, 1), (2, 2), (1, 3)])
     # MOASHA requires at least one rung per bracket (int(log(max_t/min_t)/log(rf) - s + 1) >= 0)
+    max_samples = None
     pk = t.weighted([(4, "nondominated"), (2, "fixed"), (2, "linear")])
     if pk == "nondominated":
         pdim = t.weighted([(2, 0), (1, "any")])
@@ -259,6 +263,9 @@ def case_moasha(t):
         prio = NonDominatedPriority(dim=pdim) if t.bool() else None
         if prio is None:
             pdim = 0
+        elif t.chance(1, 3):
+            max_samples = t.int(1, 6)
+            prio = NonDominatedPriority(dim=pdim, max_num_samples=max_samples)
         parg = pdim
     elif pk == "fixed":
         parg = t.int(0, d - 1)
@@ -289,7 +296,7 @@ def case_moasha(t):
     alive = []
     next_id = 0
     events = []
-    labels = [pk, f"brackets-{brackets}", "grid" if grid else "floats"]
+    labels = [pk, f"brackets-{brackets}", "grid" if grid else "floats"] + (["max_num_samples"] if max_samples is not None else [])
     nontrivial = False
     steps = 0
     while (alive or next_id < n_trials) and steps < 200:
@@ -341,7 +348,7 @@ def case_moasha(t):
         else:
             own = [v * s for v, s in zip(vals, signs)]
             V = list(rb.recorded[m].values()) + [own]
-            ok = allowed_decisions(pk, parg, V, rf)
+            ok = allowed_decisions(pk, parg, V, rf, max_items=max_samples)
             if len(V) >= 3:
                 nontrivial = True
                 labels.append("decision-with-2-earlier")
@@ -369,5 +376,5 @@ def case_moasha(t):
 SUBCHECKS = {
     "sort": {"fn": case_sort, "quick": 40000, "thorough": 1000000, "required": ["ties", "max_items", "dim-none", "flatten-off"]},
     "small-exhaustive": {"fn": case_small, "enumerate": enum_small, "quick": 1, "thorough": 1},
-    "moasha": {"fn": case_moasha, "quick": 12000, "thorough": 300000, "required": ["decision-with-2-earlier", "stop-at-rung", "nondominated", "fixed", "linear"]},
+    "moasha": {"fn": case_moasha, "quick": 12000, "thorough": 300000, "required": ["decision-with-2-earlier", "stop-at-rung", "nondominated", "fixed", "linear", "max_num_samples"]},
 }
